@@ -263,7 +263,13 @@ def arith_block(name, call, w, variant, ns, spec, on_sp=False, temps=()):
             st = A['hex.pointers.stack']
             return [[LDom.explicit([st + i * A['dw'] for i in range(0, 6)] + arith_edges(A, w)[:6])]]
         return [[LDom.addrs(A['@buf'], A['dw'], K), LDom.one(pat(cb_of(ns), K))], [LDom.explicit(arith_edges(A, w)), LDom.one(0)]]
-    return mk(name, variant, w, ns, [call.format(p='@p', c=c)], pv, spec_of, udom_of, 'arith', temps=temps)
+    b = mk(name, variant, w, ns, [call.format(p='@p', c=c)], pv, spec_of, udom_of, 'arith', temps=temps)
+    if spec == 'ptr_sub_c' and c == 0:
+        # REGRESSION PROBE of finding F27 (fixed in the repo): hex.sub_constant n, dst, 0 did not assemble (negative shift count), so
+        # hex.ptr_sub p, 0 / hex.sp_sub 0 / stl.call f, 0 did not either, while the add twins are no-ops.  The instances are ordinary
+        # theorem blocks; should the assembly fail with this error again it is reported under this signature, not as a broken tie.
+        b.asm_defect = ({'kind': 'stl-asm', 'macro': 'hex.sub_constant', 'defect': 'zero-constant'}, 'negative shift count')
+    return b
 
 
 def index_block(name, w, variant):
@@ -486,6 +492,8 @@ SHARED = {
     'mixed': ([('FCall', 0), ('Call', 1), ('FCall', 0), ('Mark', 0x2E)],
               [[('Mark', 0x61), ('Call', 1), ('Mark', 0x41)], [('Mark', 0x62)]], 'fc'),
     'params': ([('CallP', 0, 2), ('Mark', 0x2E), ('CallP', 0, 2), ('Mark', 0x2E)], [[('Mark', 0x61), ('Call', 1)], [('Mark', 0x62)]], 'pc'),
+    # stl.call f, 0 = call + hex.sp_sub 0: did not assemble before the fix of hex.sub_constant (F27); regression probe
+    'params0': ([('CallP', 0, 0), ('Mark', 0x2E), ('CallP', 0, 3), ('Mark', 0x2E)], [[('Mark', 0x61)]], 'p'),
 }
 
 
@@ -508,7 +516,7 @@ def calls_block(w, variant):
             elif it[0] == 'FCall':
                 lines.append(f'stl.fcall @f{it[1]}, @r{it[1]}')
             else:
-                lines += ['hex.push_hex @a', 'hex.push_byte @a', f'stl.call @f{it[1]}, {it[2]}']
+                lines += [('hex.push_hex @a', 'hex.push_byte @a')[j % 2] for j in range(it[2])] + [f'stl.call @f{it[1]}, {it[2]}']
     code = []
     emit(main, code)
     tail = []
@@ -547,9 +555,12 @@ def calls_block(w, variant):
         return (f'(* the marker sequence of exit 0 is the trace of the abstract call tree *)\n'
                 f'Example {tn}_trace : map snd (b_exits b{b.k}) = [call_trace 16 {fs_coq} {main_coq}].\n'
                 f'Proof. vm_compute. reflexivity. Qed.')
-    return mk('calls', dict(variant, tag=tag), w, 'hex', code, pv, spec_of, udom_of, 'calls', tail=tail, markers=[trace],
-              scratch_ops=[('hex.pointers.stack', 1, depth, 'byte')], extra_thm=[trace_thm],
-              title=f'call tree {tag}: main = {main_coq}; functions = {fs_coq} (conventions {"".join(conv)})')
+    b = mk('calls', dict(variant, tag=tag), w, 'hex', code, pv, spec_of, udom_of, 'calls', tail=tail, markers=[trace],
+           scratch_ops=[('hex.pointers.stack', 1, depth, 'byte')], extra_thm=[trace_thm],
+           title=f'call tree {tag}: main = {main_coq}; functions = {fs_coq} (conventions {"".join(conv)})')
+    if any(it[0] == 'CallP' and it[2] == 0 for body in [main] + list(fs) for it in body):
+        b.asm_defect = ({'kind': 'stl-asm', 'macro': 'hex.sub_constant', 'defect': 'zero-constant'}, 'negative shift count')
+    return b
 
 
 # ---------------------------------------------------------------------------------------------------------
@@ -691,7 +702,7 @@ E('hex.ptr_dec', PA, 'def ptr_dec ptr', lambda w, v: arith_block('hex.ptr_dec', 
 E('hex.ptr_add', PA, 'def ptr_add ptr, value', lambda w, v: arith_block('hex.ptr_add', 'hex.ptr_add {p}, {c}', w, v, 'hex', 'ptr_add_c'),
   VC([3], [0, 1, 3, 16, 255, 1000]), spec_name='ptr_add_c')
 E('hex.ptr_sub', PA, 'def ptr_sub ptr, value', lambda w, v: arith_block('hex.ptr_sub', 'hex.ptr_sub {p}, {c}', w, v, 'hex', 'ptr_sub_c'),
-  VC([3], [0, 1, 3, 16, 255, 1000]), spec_name='ptr_sub_c')
+  VC([0, 3], [0, 1, 3, 16, 255, 1000]), spec_name='ptr_sub_c')
 E('hex.ptr_index', PA, 'def ptr_index dst, ptr, index', lambda w, v: index_block('hex.ptr_index', w, v), V0, spec_name='ptr_index_of')
 # ---- stack.fj
 E('hex.sp_inc', ST, 'def sp_inc', lambda w, v: arith_block('hex.sp_inc', 'hex.sp_inc', w, v, 'hex', 'ptr_add_c', on_sp=True), V0,
@@ -701,7 +712,7 @@ E('hex.sp_dec', ST, 'def sp_dec', lambda w, v: arith_block('hex.sp_dec', 'hex.sp
 E('hex.sp_add', ST, 'def sp_add value', lambda w, v: arith_block('hex.sp_add', 'hex.sp_add {c}', w, v, 'hex', 'ptr_add_c', on_sp=True),
   VC([2], [0, 2, 17]), spec_name='ptr_add_c on sp')
 E('hex.sp_sub', ST, 'def sp_sub value', lambda w, v: arith_block('hex.sp_sub', 'hex.sp_sub {c}', w, v, 'hex', 'ptr_sub_c', on_sp=True),
-  VC([2], [0, 2, 17]), spec_name='ptr_sub_c on sp')
+  VC([0, 2], [0, 2, 17]), spec_name='ptr_sub_c on sp')
 E('stl.get_sp', PL, 'def get_sp dst', lambda w, v: getsp_block('stl.get_sp', w, v), V0, spec_name='ptr_get')
 
 
@@ -742,7 +753,7 @@ def calls_variants(tier, w):
     if tier == 'quick':
         if w == 64:
             return [{'shared': 'twice'}, {'n': 2, 'i': 1, 'conv': 'cf'}]
-        return [{'shared': k} for k in ('twice', 'ftwice', 'diamond', 'chain5')] + \
+        return [{'shared': k} for k in ('twice', 'ftwice', 'diamond', 'chain5', 'params0')] + \
                [{'n': 1, 'i': 0, 'conv': 'p'}, {'n': 2, 'i': 0, 'conv': 'fc'}, {'n': 2, 'i': 1, 'conv': 'cf'}]
     out = [{'shared': k} for k in SHARED]
     for n in (1, 2, 3):
